@@ -19,123 +19,193 @@ Inductive receipt :=
 Record oracles := {
   o_targets : tx -> list target -> list target;       (* ChangeAssets `range targets`, chosen anew per transaction *)
   o_refund : list refund_entry -> list refund_entry;  (* RefundManager.Add `range data` *)
+  o_prop : list (N * Z) -> list (N * Z);              (* calculateRewardPerBlock `range proposersStake` *)
+  o_val : list (N * Z) -> list (N * Z);               (* calculateRewardPerBlock `range validatorStake` *)
+  o_total : list (N * Z) -> list (N * Z);             (* CalculateReward `range total` *)
   o_cam : list (N * Z) -> list (N * Z)                (* CheckAndMove `range refundList` *)
 }.
 Definition oracles_ok (o : oracles) : Prop :=
-  (forall t, perm_oracle (o_targets o t)) /\ perm_oracle (o_refund o) /\ perm_oracle (o_cam o).
+  (forall t, perm_oracle (o_targets o t)) /\ perm_oracle (o_refund o) /\ perm_oracle (o_prop o) /\
+  perm_oracle (o_val o) /\ perm_oracle (o_total o) /\ perm_oracle (o_cam o).
 
 Definition btx_less (a b : btx) : bool := tx_less (b_tx a) (b_tx b).
 
+(* the content of the reward map `total` built by calculateRewardPerBlock, as a list over its key set
+   (keys in a canonical order; the visiting order is the oracle's business) *)
+Definition reward_keys (castor : N * Z) (proposers validators : list (N * Z)) : list N :=
+  nodup N.eq_dec (fst castor :: map fst proposers ++ map fst validators).
+Definition reward_entries (castor : N * Z) (proposers validators : list (N * Z)) (r : store) : list (N * Z) :=
+  map (fun k => (k, r (0%N, k))) (reward_keys castor proposers validators).
+
 Section Block.
+  Variable C : Type.                                  (* the executor context: context["refund"] etc. *)
   Variable btag : N.                                  (* tag of the native-balance cells *)
   Variable racct : N -> N.                            (* refund escrow account of a height *)
-  Variable other : N -> tx -> store -> store * receipt.
-  Variable refunds_of : store -> list refund_entry.   (* context["refund"] and the reward data, as map contents *)
+  Variable other : N -> tx -> store -> C -> store * C * receipt.   (* executors without an iteration site *)
+  Variable difficulty : N -> store -> store.          (* calcDifficulty: reads/writes cells of the castor *)
+  Variable refunds_of : C -> list refund_entry.       (* context["refund"] as map content *)
+  Variable castor_of : N -> store -> N * Z.           (* proposer account, proposer reward *)
+  Variable proposers_of : N -> store -> list (N * Z). (* (account, delta(stake)) per proposer: map content *)
+  Variable validators_of : N -> store -> list (N * Z). (* (account, share(stake)) per group member: map content *)
+  Variable next_height : N -> N.                      (* NextRewardHeight *)
   Variable due_of : N -> store -> list (N * Z).       (* GetAllRefund(escrow of height), as map content *)
 
   Definition bal_of (s : store) : bal := fun a => s (btag, a).
   Definition with_bal (s : store) (b : bal) : store :=
     fun c => if (fst c =? btag)%N then b (snd c) else s c.
 
-  Definition exec_one (o : oracles) (t : btx) (s : store) : store * receipt :=
+  Definition exec_one (o : oracles) (t : btx) (s : store) (c : C) : store * C * receipt :=
     match b_pay t with
     | PTransfer src targets =>
         match change_assets_fixed (o_targets o (b_tx t)) src targets (bal_of s) with
-        | CAFail => (s, RTransfer false None)                      (* RevertToSnapshot *)
-        | CAOk b l => (with_bal s b, RTransfer true l)
+        | CAFail => (s, c, RTransfer false None)                      (* RevertToSnapshot *)
+        | CAOk b l => (with_bal s b, c, RTransfer true l)
         end
-    | POther d => other d (b_tx t) s
+    | POther d => other d (b_tx t) s c
     end.
 
-  Fixpoint exec_list (o : oracles) (l : list btx) (s : store) : store * list (N * receipt) :=
+  Fixpoint exec_list (o : oracles) (l : list btx) (s : store) (c : C) : store * C * list (N * receipt) :=
     match l with
-    | [] => (s, [])
+    | [] => (s, c, [])
     | t :: r =>
-        let '(s1, rc) := exec_one o t s in
-        let '(s2, rs) := exec_list o r s1 in
-        (s2, (x_hash (b_tx t), rc) :: rs)
+        let '(s1, c1, rc) := exec_one o t s c in
+        let '(s2, c2, rs) := exec_list o r s1 c1 in
+        (s2, c2, (x_hash (b_tx t), rc) :: rs)
     end.
 
-  (* Execute: sort (non-casting), per-transaction loop, after(): Add(refunds), CheckAndMove(height) *)
-  Definition exec_block (o : oracles) (height : N) (txs : list btx) (s : store) : store * list (N * receipt) :=
-    let '(s1, rs) := exec_list o (isort btx_less txs) s in
-    let s2 := refund_add (o_refund o (refunds_of s1)) s1 in
-    let s3 := check_and_move btag (racct height) (o_cam o (due_of height s2)) s2 in
-    (s3, rs).
+  (* after(): calcDifficulty; Add(context refunds); CalculateReward -> Add; CheckAndMove(height) *)
+  Definition after (o : oracles) (height : N) (s1 : store) (c1 : C) : store :=
+    let s2 := difficulty height s1 in
+    let s3 := refund_add (o_refund o (refunds_of c1)) s2 in
+    let castor := castor_of height s3 in
+    let ps := proposers_of height s3 in
+    let vs := validators_of height s3 in
+    let r := reward_result 0 castor (o_prop o ps) (o_val o vs) (fun _ => 0%Z) in
+    let total := o_total o (reward_entries castor ps vs r) in
+    let s4 := refund_add (o_refund o [(racct (next_height height), total)]) s3 in
+    check_and_move btag (racct height) (o_cam o (due_of height s4)) s4.
+
+  (* Execute: sort (non-casting), per-transaction loop, after() *)
+  Definition exec_block (o : oracles) (height : N) (txs : list btx) (s : store) (c : C) : store * list (N * receipt) :=
+    let '(s1, c1, rs) := exec_list o (isort btx_less txs) s c in
+    (after o height s1 c1, rs).
 
   (* what "deterministic function of the state content" means for the opaque parts *)
-  Hypothesis other_ext : forall d t s s', store_eq s s' ->
-    store_eq (fst (other d t s)) (fst (other d t s')) /\ snd (other d t s) = snd (other d t s').
-  Hypothesis refunds_ext : forall s s', store_eq s s' -> refunds_of s = refunds_of s'.
+  Hypothesis other_ext : forall d t s s' c, store_eq s s' ->
+    store_eq (fst (fst (other d t s c))) (fst (fst (other d t s' c))) /\
+    snd (fst (other d t s c)) = snd (fst (other d t s' c)) /\ snd (other d t s c) = snd (other d t s' c).
+  Hypothesis difficulty_ext : forall h s s', store_eq s s' -> store_eq (difficulty h s) (difficulty h s').
+  Hypothesis castor_ext : forall h s s', store_eq s s' -> castor_of h s = castor_of h s'.
+  Hypothesis proposers_ext : forall h s s', store_eq s s' -> proposers_of h s = proposers_of h s'.
+  Hypothesis validators_ext : forall h s s', store_eq s s' -> validators_of h s = validators_of h s'.
+  Hypothesis validators_nodup : forall h s, NoDup (map fst (validators_of h s)).   (* keys of a Go map *)
   Hypothesis due_ext : forall h s s', store_eq s s' -> due_of h s = due_of h s'.
 
   Definition keys_ok (t : btx) : Prop :=
     match b_pay t with PTransfer _ targets => NoDup (map t_key targets) | POther _ => True end.
 
-  Lemma exec_one_det : forall o1 o2 t s s', oracles_ok o1 -> oracles_ok o2 -> keys_ok t -> store_eq s s' ->
-    store_eq (fst (exec_one o1 t s)) (fst (exec_one o2 t s')) /\ snd (exec_one o1 t s) = snd (exec_one o2 t s').
+  Lemma exec_one_det : forall o1 o2 t s s' c, oracles_ok o1 -> oracles_ok o2 -> keys_ok t -> store_eq s s' ->
+    store_eq (fst (fst (exec_one o1 t s c))) (fst (fst (exec_one o2 t s' c))) /\
+    snd (fst (exec_one o1 t s c)) = snd (fst (exec_one o2 t s' c)) /\
+    snd (exec_one o1 t s c) = snd (exec_one o2 t s' c).
   Proof.
-    intros o1 o2 t s s' (T1 & _) (T2 & _) K E. unfold exec_one, keys_ok in *.
+    intros o1 o2 t s s' c (T1 & _) (T2 & _) K E. unfold exec_one, keys_ok in *.
     destruct (b_pay t) as [src targets|d]; [|now apply other_ext].
     rewrite (change_assets_fixed_order_indep (o_targets o1 (b_tx t)) (o_targets o2 (b_tx t)) src targets (bal_of s)) by auto.
     unfold change_assets_fixed.
     pose proof (ca_loop_ext src (isort target_ltb (o_targets o2 (b_tx t) targets)) (bal_of s) (bal_of s') None
                   (fun a => E (btag, a))) as H.
     destruct (ca_loop src _ (bal_of s) None) as [|b l], (ca_loop src _ (bal_of s') None) as [|b' l']; cbn in H; try (exfalso; exact H).
-    - split; [exact E|reflexivity].
-    - destruct H as [Hb ->]. split; [|reflexivity]. cbn. intro c. unfold with_bal.
-      destruct (fst c =? btag)%N; [apply Hb|apply E].
+    - cbn. split; [exact E|split; reflexivity].
+    - destruct H as [Hb ->]. cbn. split; [|split; reflexivity]. intro x. unfold with_bal.
+      destruct (fst x =? btag)%N; [apply Hb|apply E].
   Qed.
 
-  Lemma exec_list_det : forall o1 o2 l s s', oracles_ok o1 -> oracles_ok o2 -> Forall keys_ok l -> store_eq s s' ->
-    store_eq (fst (exec_list o1 l s)) (fst (exec_list o2 l s')) /\ snd (exec_list o1 l s) = snd (exec_list o2 l s').
+  Lemma exec_list_det : forall o1 o2 l s s' c, oracles_ok o1 -> oracles_ok o2 -> Forall keys_ok l -> store_eq s s' ->
+    store_eq (fst (fst (exec_list o1 l s c))) (fst (fst (exec_list o2 l s' c))) /\
+    snd (fst (exec_list o1 l s c)) = snd (fst (exec_list o2 l s' c)) /\
+    snd (exec_list o1 l s c) = snd (exec_list o2 l s' c).
   Proof.
-    induction l as [|t r IH]; intros s s' O1 O2 K E; cbn.
-    - split; [exact E|reflexivity].
+    induction l as [|t r IH]; intros s s' c O1 O2 K E; cbn.
+    - split; [exact E|split; reflexivity].
     - inversion K as [|? ? Kt Kr]; subst.
-      pose proof (exec_one_det o1 o2 t s s' O1 O2 Kt E) as [E1 R1].
-      destruct (exec_one o1 t s) as [s1 rc1], (exec_one o2 t s') as [s1' rc1']. cbn in E1, R1. subst rc1'.
-      pose proof (IH s1 s1' O1 O2 Kr E1) as [E2 R2].
-      destruct (exec_list o1 r s1) as [s2 rs], (exec_list o2 r s1') as [s2' rs']. cbn in *. subst rs'.
-      split; [exact E2|reflexivity].
+      pose proof (exec_one_det o1 o2 t s s' c O1 O2 Kt E) as (E1 & C1 & R1).
+      destruct (exec_one o1 t s c) as [[s1 c1] rc1], (exec_one o2 t s' c) as [[s1' c1'] rc1']. cbn in E1, C1, R1. subst rc1' c1'.
+      pose proof (IH s1 s1' c1 O1 O2 Kr E1) as (E2 & C2 & R2).
+      destruct (exec_list o1 r s1 c1) as [[s2 c2] rs], (exec_list o2 r s1' c1) as [[s2' c2'] rs']. cbn in *. subst rs' c2'.
+      split; [exact E2|split; reflexivity].
   Qed.
 
-  Lemma after_det : forall o1 o2 height s s', oracles_ok o1 -> oracles_ok o2 -> btag <> racct height -> store_eq s s' ->
-    store_eq (check_and_move btag (racct height) (o_cam o1 (due_of height (refund_add (o_refund o1 (refunds_of s)) s)))
-                (refund_add (o_refund o1 (refunds_of s)) s))
-             (check_and_move btag (racct height) (o_cam o2 (due_of height (refund_add (o_refund o2 (refunds_of s')) s')))
-                (refund_add (o_refund o2 (refunds_of s')) s')).
+  Lemma refund_add_perm_ext : forall d1 d2 s s', Permutation d1 d2 -> store_eq s s' ->
+    store_eq (refund_add d1 s) (refund_add d2 s').
   Proof.
-    intros o1 o2 height s s' (_ & R1 & C1) (_ & R2 & C2) N E.
-    assert (A : store_eq (refund_add (o_refund o1 (refunds_of s)) s) (refund_add (o_refund o2 (refunds_of s')) s')).
-    { rewrite <- (refunds_ext s s' E). unfold refund_add. apply run_ops_perm.
-      - apply Permutation_flat_map. eapply Permutation_trans; [apply R1|apply Permutation_sym, R2].
-      - intros a b H1 H2. apply in_flat_map in H1 as (e1 & _ & H1). apply in_flat_map in H2 as (e2 & _ & H2).
-        unfold refund_ops in *. apply in_map_iff in H1 as (? & <- & _). apply in_map_iff in H2 as (? & <- & _).
+    intros d1 d2 s s' P E. unfold refund_add. apply run_ops_perm.
+    - now apply Permutation_flat_map.
+    - intros a b H1 H2. apply in_flat_map in H1 as (e1 & _ & H1). apply in_flat_map in H2 as (e2 & _ & H2).
+      unfold refund_ops in *. apply in_map_iff in H1 as (? & <- & _). apply in_map_iff in H2 as (? & <- & _).
+      apply commute_add_add.
+    - exact E.
+  Qed.
+
+  Lemma reward_entries_ext : forall castor ps vs r r', store_eq r r' ->
+    reward_entries castor ps vs r = reward_entries castor ps vs r'.
+  Proof. intros. unfold reward_entries. apply map_ext. intro k. now rewrite H. Qed.
+
+  Lemma after_det : forall o1 o2 height s s' c, oracles_ok o1 -> oracles_ok o2 ->
+    btag <> racct height -> store_eq s s' ->
+    store_eq (after o1 height s c) (after o2 height s' c).
+  Proof.
+    intros o1 o2 height s s' c (_ & R1 & P1 & V1 & T1 & C1) (_ & R2 & P2 & V2 & T2 & C2) N E.
+    unfold after.
+    assert (E2 := difficulty_ext height s s' E).
+    set (sa2 := difficulty height s) in *. set (sb2 := difficulty height s') in *.
+    assert (E3 : store_eq (refund_add (o_refund o1 (refunds_of c)) sa2) (refund_add (o_refund o2 (refunds_of c)) sb2)).
+    { apply refund_add_perm_ext; [|exact E2]. eapply Permutation_trans; [apply R1|apply Permutation_sym, R2]. }
+    set (sa3 := refund_add (o_refund o1 (refunds_of c)) sa2) in *.
+    set (sb3 := refund_add (o_refund o2 (refunds_of c)) sb2) in *.
+    rewrite <- (castor_ext height sa3 sb3 E3), <- (proposers_ext height sa3 sb3 E3), <- (validators_ext height sa3 sb3 E3).
+    set (castor := castor_of height sa3). set (ps := proposers_of height sa3). set (vs := validators_of height sa3).
+    assert (ER : store_eq (reward_result 0 castor (o_prop o1 ps) (o_val o1 vs) (fun _ => 0%Z))
+                          (reward_result 0 castor (o_prop o2 ps) (o_val o2 vs) (fun _ => 0%Z))).
+    { apply reward_result_order_indep.
+      - eapply Permutation_trans; [apply P1|apply Permutation_sym, P2].
+      - eapply Permutation_trans; [apply V1|apply Permutation_sym, V2].
+      - eapply Permutation_NoDup; [apply Permutation_map, Permutation_sym, V1|apply validators_nodup]. }
+    rewrite <- (reward_entries_ext castor ps vs _ _ ER).
+    set (ent := reward_entries castor ps vs (reward_result 0 castor (o_prop o1 ps) (o_val o1 vs) (fun _ => 0%Z))).
+    assert (E4 : store_eq (refund_add (o_refund o1 [(racct (next_height height), o_total o1 ent)]) sa3)
+                          (refund_add (o_refund o2 [(racct (next_height height), o_total o2 ent)]) sb3)).
+    { intro x.
+      rewrite (refund_add_perm_ext _ [(racct (next_height height), o_total o1 ent)] sa3 sa3 (R1 _) (fun _ => eq_refl) x).
+      rewrite (refund_add_perm_ext _ [(racct (next_height height), o_total o2 ent)] sb3 sb3 (R2 _) (fun _ => eq_refl) x).
+      unfold refund_add. cbn [flat_map]. rewrite !app_nil_r. revert x. apply run_ops_perm.
+      - unfold refund_ops. cbn [fst snd]. apply Permutation_map.
+        eapply Permutation_trans; [apply T1|apply Permutation_sym, T2].
+      - intros a b H1 H2. unfold refund_ops in *. apply in_map_iff in H1 as (? & <- & _). apply in_map_iff in H2 as (? & <- & _).
         apply commute_add_add.
-      - exact E. }
-    rewrite <- (due_ext height _ _ A).
-    set (sa := refund_add (o_refund o1 (refunds_of s)) s) in *.
-    set (sb := refund_add (o_refund o2 (refunds_of s')) s') in *.
-    intro c.
-    rewrite (check_and_move_order_indep btag (racct height) (o_cam o1 (due_of height sa)) (o_cam o2 (due_of height sa)) sa N
-               (Permutation_trans (C1 _) (Permutation_sym (C2 _))) c).
-    unfold check_and_move. apply run_ext. exact A.
+      - exact E3. }
+    set (sa4 := refund_add (o_refund o1 [(racct (next_height height), o_total o1 ent)]) sa3) in *.
+    set (sb4 := refund_add (o_refund o2 [(racct (next_height height), o_total o2 ent)]) sb3) in *.
+    rewrite <- (due_ext height sa4 sb4 E4).
+    intro x.
+    rewrite (check_and_move_order_indep btag (racct height) (o_cam o1 (due_of height sa4)) (o_cam o2 (due_of height sa4)) sa4 N
+               (Permutation_trans (C1 _) (Permutation_sym (C2 _))) x).
+    unfold check_and_move. apply run_ext. exact E4.
   Qed.
 
   (* Same list, same parent state, same height: the post-state content (hence its root), the receipts
-     and the evicted list are the same whatever order any map was iterated in. *)
-  Theorem exec_block_deterministic : forall o1 o2 height txs s,
+     and the evicted markers are the same whatever order any map was iterated in. *)
+  Theorem exec_block_deterministic : forall o1 o2 height txs s c,
     oracles_ok o1 -> oracles_ok o2 -> btag <> racct height -> Forall keys_ok txs ->
-    store_eq (fst (exec_block o1 height txs s)) (fst (exec_block o2 height txs s))
-    /\ snd (exec_block o1 height txs s) = snd (exec_block o2 height txs s).
+    store_eq (fst (exec_block o1 height txs s c)) (fst (exec_block o2 height txs s c))
+    /\ snd (exec_block o1 height txs s c) = snd (exec_block o2 height txs s c).
   Proof.
-    intros o1 o2 height txs s O1 O2 N K. unfold exec_block.
+    intros o1 o2 height txs s c O1 O2 N K. unfold exec_block.
     assert (K' : Forall keys_ok (isort btx_less txs)).
     { rewrite Forall_forall in *. intros t Ht. apply K. eapply Permutation_in; [apply isort_perm|exact Ht]. }
-    pose proof (exec_list_det o1 o2 (isort btx_less txs) s s O1 O2 K' (fun _ => eq_refl)) as [E R].
-    destruct (exec_list o1 (isort btx_less txs) s) as [s1 rs], (exec_list o2 (isort btx_less txs) s) as [s1' rs'].
-    cbn in E, R. subst rs'. cbn. split; [|reflexivity].
+    pose proof (exec_list_det o1 o2 (isort btx_less txs) s s c O1 O2 K' (fun _ => eq_refl)) as (E & Cq & R).
+    destruct (exec_list o1 (isort btx_less txs) s c) as [[s1 c1] rs], (exec_list o2 (isort btx_less txs) s c) as [[s1' c1'] rs'].
+    cbn in E, Cq, R. subst rs' c1'. cbn. split; [|reflexivity].
     now apply after_det.
   Qed.
 
@@ -152,16 +222,16 @@ Section Block.
     - rewrite map_map in Nd. eapply NoDup_of_map; exact Nd.
   Qed.
 
-  Theorem exec_block_list_order_irrelevant : forall o1 o2 height txs1 txs2 s,
+  Theorem exec_block_list_order_irrelevant : forall o1 o2 height txs1 txs2 s c,
     oracles_ok o1 -> oracles_ok o2 -> btag <> racct height -> Forall keys_ok txs1 ->
     txs_ok (map b_tx txs1) -> Permutation txs1 txs2 ->
-    store_eq (fst (exec_block o1 height txs1 s)) (fst (exec_block o2 height txs2 s))
-    /\ snd (exec_block o1 height txs1 s) = snd (exec_block o2 height txs2 s).
+    store_eq (fst (exec_block o1 height txs1 s c)) (fst (exec_block o2 height txs2 s c))
+    /\ snd (exec_block o1 height txs1 s c) = snd (exec_block o2 height txs2 s c).
   Proof.
-    intros o1 o2 height txs1 txs2 s O1 O2 N K Ok P.
+    intros o1 o2 height txs1 txs2 s c O1 O2 N K Ok P.
     destruct (btx_sto txs1 Ok) as [S Nd].
     assert (E : isort btx_less txs2 = isort btx_less txs1) by (symmetry; now apply isort_unique).
     unfold exec_block at 2 4. rewrite E.
-    apply (exec_block_deterministic o1 o2 height txs1 s); auto.
+    apply (exec_block_deterministic o1 o2 height txs1 s c); auto.
   Qed.
 End Block.
